@@ -1,7 +1,7 @@
 /- line-protocol handler for the reader calculus (first token RD; served under C09)
 
    RD run <digester> <arg> <term> <eager> <chunks>
-      digester  pe | pepage | cab | ps | xap | msi | msiex | hashpages | deb
+      digester  pe | pepage | cab | ps | xap | msi | msiex | hashpages | deb | ziptar (arg = script `len@off;len@off;…` of ReadAt calls)
       arg       signature style (ps) or `-`
       term      eof | fail
       eager     1 = the terminal error is delivered together with the last data
@@ -77,6 +77,39 @@ def showDeb (r : Res DebOut) (_ : Log) : String :=
     let fs := d.files.map fun (n, sz, b) => s!"{toHex n}:{sz}:{toHex b}"
     s!"ok {d.patchOffset} {d.patchLength} files={if fs.isEmpty then "." else ",".intercalate fs}"
 
+def showZAns : ZAns → String
+  | .ok b => s!"{toHex b}:-"
+  | .backwards => "-:backwards"
+  | .skipErr e => s!"-:{e}"
+  | .short got e => s!"{toHex got}:{e}"
+
+def transportErr : ZAns → Bool
+  | .skipErr e => e.startsWith "read:"
+  | .short _ e => e.startsWith "read:"
+  | _ => false
+
+/-- the scripted ZIP consumer: the given `ReadAt(len, off)` calls, all answers reported; it stops at the first answer
+    that carries a transport error (as every real consumer does: after that, whether later calls report io.EOF or the
+    transport error again depends on whether the error arrived together with the member's last byte) -/
+def scriptClient : List (Nat × Nat) → List String → ZClient String
+  | [], acc => .done ("|".intercalate acc)
+  | (len, off) :: rest, acc =>
+    .readAt len off fun a =>
+      if transportErr a then .done ("|".intercalate (acc ++ [showZAns a])) else scriptClient rest (acc ++ [showZAns a])
+
+def parseScript (s : String) : Option (List (Nat × Nat)) :=
+  if s = "-" then some [] else
+  (s.splitOn ";").mapM fun p =>
+    match p.splitOn "@" with
+    | [a, b] => do
+      let x ← a.toNat?
+      let y ← b.toNat?
+      pure (x, y)
+    | _ => none
+
+def showZip (r : Res String) (_ : Log) : String :=
+  showRes r fun t => s!"ok {if t.isEmpty then "-" else t}"
+
 /-- `path.Clean` on the simple names the generator writes: trailing slashes removed -/
 def cleanName (n : Bytes) : Bytes :=
   let t := (n.reverse.dropWhile (· = 47)).reverse
@@ -112,6 +145,10 @@ def handle : List String → String
       | "msi" => both (digestMsiTar false (s.data.length / 512 + 3)) s showMsi
       | "msiex" => both (digestMsiTar true (s.data.length / 512 + 3)) s showMsi
       | "hashpages" => both (hashPages 4096 (s.data.length / 4096 + 3)) s showCodePages
+      | "ziptar" =>
+        match parseScript arg with
+        | some sc => both (readZipTar fun cd size => scriptClient sc [s!"cd={cd.length}", s!"size={size}"]) s showZip
+        | none => "bad-op"
       | "deb" => both (digestDeb cleanName ("_gpg".toUTF8.toList ++ arg.toUTF8.toList) (s.data.length / 60 + 3)) s showDeb
       | _ => "bad-op"
   -- implementation-level oracles: the expected line is the property itself
